@@ -4,4 +4,6 @@ EXTENDS Integers
 Vels == {<<0, 0, 0>>, <<3, -2, 1>>, <<0, 5, 0>>, <<-4, 1, -2>>}
 Levers == {<<>>, <<0, 0, 0>>, <<2, 0, 0>>, <<0, -3, 1>>}
 Rates == {<<>>, <<0, 0, 0>>, <<0, 0, 2>>, <<1, -1, 0>>}
+Forces == {<<0, 0, -7>>, <<3, -2, 1>>}
+BodyRates == {<<0, 0, 0>>, <<1, -1, 2>>}
 =============================================================================
